@@ -59,14 +59,18 @@ Proof. vm_compute. split; reflexivity. Qed.
 Theorem C09_store_from_source : forall c a k v, Inv c a ->
   go_store fn_LRUCache_delete fn_LRUCache_Store k v c = Some (store k v c).
 Proof. exact go_store_model. Qed.
+Print Assumptions C09_store_from_source.
 Theorem C09_load_from_source : forall c a k, Inv c a ->
   go_load fn_LRUCache_delete fn_LRUCache_Load k c = Some (load k c).
 Proof. exact go_load_model. Qed.
+Print Assumptions C09_load_from_source.
 Theorem C09_delete_from_source : forall c a k, Inv c a ->
   go_delete fn_LRUCache_delete fn_LRUCache_Delete k c = Some (del k c).
 Proof. exact go_delete_model. Qed.
+Print Assumptions C09_delete_from_source.
 Theorem C09_len_from_source : forall c, go_len fn_LRUCache_delete fn_LRUCache_Len c = Some (len c).
 Proof. exact go_len_model. Qed.
+Print Assumptions C09_len_from_source.
 Theorem C09_histories_from_source : forall (c : Z) (ops : list op), 0 <= c ->
   go_run (init c) ops = Some (run (init c) ops).
 Proof. exact go_run_init. Qed.
